@@ -115,6 +115,21 @@ def loads(vk, cfg):
             vk.ensures_eq("mass==gram-form", M[0::dim, 0::dim], G, tol=tol)
             if vk.sym:
                 vk.canary("mass==lumped", M[0::dim, 0::dim], np.diag(np.sum(G, axis=1)))
+            # "for all densities": a density handed to assemble.mass() takes precedence over the body's own, a body
+            # without a density uses the given one, and nothing is remembered between calls (the density of the body
+            # may change between two modal analyses)
+            rho2, rho3 = vk.real_scalar("rho2", near=0.7), vk.real_scalar("rho3", near=3.1)
+            G1 = G / rho
+            M2 = np.asarray(dense(vk, lambda: body.assemble.mass(density=rho2)))
+            vk.ensures_eq("mass(density=rho2) on a body with its own density == rho2 * gram-form", M2[0::dim, 0::dim], rho2 * G1, tol=tol)
+            M1 = np.asarray(dense(vk, lambda: body.assemble.mass()))
+            vk.ensures_eq("mass() again == rho * gram-form", M1[0::dim, 0::dim], G, tol=tol)
+            body.density = rho3
+            M3 = np.asarray(dense(vk, lambda: body.assemble.mass()))
+            vk.ensures_eq("mass() after body.density = rho3 == rho3 * gram-form", M3[0::dim, 0::dim], rho3 * G1, tol=tol)
+            body0 = fem.SolidBody(StubMaterial(vk, dim=dim), fc)
+            M4 = np.asarray(dense(vk, lambda: body0.assemble.mass(density=rho2)))
+            vk.ensures_eq("mass(density=rho2) on a body without density == rho2 * gram-form", M4[0::dim, 0::dim], rho2 * G1, tol=tol)
             return
         g = vk.reals("g", (dim,), near=1.0)
         if item == "bodyforce":
